@@ -469,3 +469,30 @@ class read_sgrmouse_info:
     def on_raise(old, s, a, exc):
         yield "more-input-asked-only-when-more-can-come", a.more_available
         yield "more-input-asked-only-while-the-final-letter-is-missing", FM(a.keys, 0) == klen(a.keys)
+
+
+TRIE = Obj(_esc.KeyqueueTrie, dict(data=Opaque("TrieMap")))
+
+
+@contract(ES + "KeyqueueTrie.get", property="C05", replayable=False)
+class trie_get:
+    self_shape = TRIE
+    params = dict(keys=CODES, more_available=Bool)
+    result = READ
+    raises = (_esc.MoreInputRequired,)
+
+    def ensures(old, s, a, result):
+        n = klen(a.keys)
+        if is_none(result):
+            p, q, wellformed, incomplete = cpr_shape(a.keys)
+            yield "none-only-when-not-a-cursor-position-report", neg(wellformed)
+            yield "none-on-exhausted-keys-only-when-nothing-more-can-come", implies(n == 0, neg(a.more_available))
+            return
+        ev, rem = split_read(result)
+        d = consumed(a.keys, rem)
+        yield "remaining-is-a-proper-suffix-left-to-right", both(d >= 1, is_suffix_from(rem, a.keys, d))
+
+    ensures_callee = as_assumption(ensures)
+
+    def on_raise(old, s, a, exc):
+        yield "more-input-asked-only-when-more-can-come", a.more_available
